@@ -12,11 +12,28 @@
    re-establish resumability after clear_checkpoint, so a deferred pause reaching such a checkpoint aborted the plan
    (FailedPause) instead of pausing there.  [C09_checkpoint_honours_deferred] now states that the cache is Some []
    after ANY checkpoint outside a bundle; the former witness is the regression example [C09_regression_C09a].
-   Partial: "no later message is executed before the engine is paused" is NOT a theorem for arbitrary schedules
-   (an abort/stop/halt/suspension may land during the grace sleep); it is checked by the implementation-side
-   oracle on the corpus.  Wall-clock: the 0.5 s grace sleep is an await point of the model, its length is not modelled. *)
+   END TO END (Proofs/RE_Defer.v, for every plan coalgebra, device oracle and schedule prefix; the only model hypothesis
+   is that the interpreter's fuel did not run out, OBad 1):
+   [C09_deferred_pause_end_to_end]: a deferred request accepted (not during the grace sleep of an earlier checkpoint),
+   then only "calm" events (no hard pause / abort / stop / halt / suspension request, no new call) and no
+   pause(defer=False) message up to the step that processes the next checkpoint message (outside a bundle), calm
+   non-task events during the grace sleep and while the cancelled task waits: the engine stays `running` with the
+   flag set and nothing cancelled at every point before the checkpoint (no lifecycle change at all), the checkpoint
+   step ends [OMsg ck; OTask WFuture] with cache = [], the next task step is the hard pause (running -> pausing, flag
+   cleared, no message), the next one parks (pausing -> paused, no message executed, no plan advanced -- or a device's
+   pause() hook raised), the blocked call reports RunEngineInterrupted / paused / flag false / resumable, and resume()
+   pushes the empty replay plan.  [C09_deferred_pause_stays_pending]: if instead the task finishes with no checkpoint
+   or pause(defer=False) message after the request, the only lifecycle change is the return to idle, the call's outcome
+   is what it would have been (interrupted mark unchanged), it reports the flag as pending, the flag stays set under
+   calm events and the next accepted call clears it (`_clear_call_cache`).  [C09_deferred_pause_after_clear_checkpoint]:
+   the same when no checkpoint is in effect at the checkpoint message (C09-a).  The hypotheses are needed:
+   [C09_hypotheses_needed] (abort/stop/halt/suspension in the grace sleep, hard pause before the checkpoint, request
+   made during an earlier grace sleep).  [calm] excludes the requests altogether (on a running engine each of them is
+   accepted).  Wall-clock: the 0.5 s grace sleep is an await point of the model, its length is not modelled. *)
 From Coq Require Import List.
 From BV Require Import Engine.RE Engine.REInst Proofs.RE_Ctl Proofs.RE_Replay Proofs.RE_Hold Proofs.RE_CtlExamples.
+From BV Require Import Proofs.RE_Shape Proofs.RE_Defer Proofs.RE_DeferEx.
+From BV Require Proofs.RE_ExitE2E Proofs.RE_Inv.
 Import ListNotations.
 
 (* after ANY schedule: deferred_pause_requested is what the trace specification says.  In particular (definition of
@@ -93,7 +110,8 @@ Theorem C09_pausing_with_checkpoint_pauses :
 Proof. exact pausing_with_checkpoint_pauses. Qed.
 Print Assumptions C09_pausing_with_checkpoint_pauses.
 
-(* the full statement (not proved as one theorem: see header) *)
+(* the trace-level statement for schedules in which only the task runs after the request; subsumed by the end-to-end
+   theorems at the end of this file *)
 Definition C09_full : Prop :=
   forall (P : Type) (presume : P -> input -> outcome P) (plan_of : nat -> P) (D : Type) (dev : D -> nat -> devmeth -> D * devres)
          (d : D) (paus stag : list nat) (rec : bool) (evs1 evs2 : list event),
@@ -128,3 +146,222 @@ Example C09_nonvacuous_pending :
   In (OOut (OutReturn [0]) Idle true true)
      (snd (irun ex_defer_late_tapes ex_defer_late_ledger ex_defer_late_paus ex_defer_late_stag ex_defer_late_rec ex_defer_late_evs)).
 Proof. exact c09_no_checkpoint_left_reports_pending. Qed.
+
+(* ================================================================== end to end, over whole schedules *)
+(* (1) the deferred pause takes effect exactly at the next checkpoint; resume replays nothing *)
+Theorem C09_deferred_pause_end_to_end :
+  forall (P : Type) (presume : P -> input -> outcome P) (plan_of : nat -> P) (D : Type)
+    (dev : D -> nat -> devmeth -> D * devres) (d : D) (paus stag : list nat) (rec : bool)
+    (evs0 evsA evsG evsH : list event),
+  let s0 := fst (run P presume plan_of D dev (init P D d paus stag rec) evs0) in
+  let sr := fst (step P presume plan_of D dev s0 (EvReqPause true)) in
+  let sA := fst (run P presume plan_of D dev sr evsA) in
+  let oA := snd (run P presume plan_of D dev sr evsA) in
+  let sK := fst (step P presume plan_of D dev sA EvTask) in
+  let oK := snd (step P presume plan_of D dev sA EvTask) in
+  let sG := fst (run P presume plan_of D dev sK evsG) in
+  let sP := fst (step P presume plan_of D dev sG EvTask) in
+  let sH := fst (run P presume plan_of D dev sP evsH) in
+  let sZ := fst (step P presume plan_of D dev sH EvTask) in
+  RE_ExitE2E.nobad P presume plan_of D dev (init P D d paus stag rec)
+    (evs0 ++ EvReqPause true :: evsA ++ EvTask :: evsG ++ EvTask :: evsH ++ [EvTask]) ->
+  allowed (state P D s0) Pausing = true ->
+  pc P D s0 <> PcCmd KCkptSleep ->
+  forallb calm evsA = true ->
+  forallb calm evsG = true ->
+  no_task evsG = true ->
+  forallb calm evsH = true ->
+  no_task evsH = true ->
+  clean oA = true ->
+  forall (a : list obs) (ck : msg) (b : list obs),
+  oK = a ++ OMsg ck :: b ->
+  clean a = true ->
+  mcmd ck = CCheckpoint ->
+  (forall b' : list obs, b <> OResp (RExn EIMS) :: b') ->
+  snd (step P presume plan_of D dev s0 (EvReqPause true)) = [OReq true] /\
+  (forall p q : list event,
+   evsA = p ++ q ->
+   state P D (fst (run P presume plan_of D dev sr p)) = Running /\
+   deferred P D (fst (run P presume plan_of D dev sr p)) = true /\
+   must_cancel P D (fst (run P presume plan_of D dev sr p)) = false) /\
+  nost oA = true /\
+  nost a = true /\
+  b = [OTask WFuture] /\
+  state P D sK = Running /\
+  pc P D sK = PcCmd KCkptSleep /\
+  cache P D sK = Some [] /\
+  deferred P D sK = true /\
+  forallb still_ob (snd (run P presume plan_of D dev sK evsG)) = true /\
+  (exists o1 : list obs,
+     snd (step P presume plan_of D dev sG EvTask) =
+     (OState Running Pausing :: o1) ++ [OResp (RVal VNone)] ++ [OTask WSleep0] /\ Forall dq o1) /\
+  state P D sP = Pausing /\
+  deferred P D sP = false /\
+  interrupted P D sP = true /\
+  cache P D sP = Some [] /\
+  forallb still_ob (snd (run P presume plan_of D dev sP evsH)) = true /\
+  forallb noexec_ob (snd (step P presume plan_of D dev sH EvTask)) = true /\
+  ((exists x : exn, RE_Inv.hook_raises D dev MPause x) \/
+   state P D sZ = Paused /\
+   pc P D sZ = PcPaused /\
+   blocking P D sZ = true /\
+   cache P D sZ = Some [] /\
+   deferred P D sZ = false /\
+   interrupted P D sZ = true /\
+   (exists o23 : list obs,
+      snd (step P presume plan_of D dev sH EvTask) = o23 ++ [OState Pausing Paused] ++ [OTask WFuture] /\
+      Forall dq o23) /\
+   (forall act : mainact,
+    RE_ExitE2E.is_call act = true ->
+    snd (step P presume plan_of D dev sZ (EvMainDone act)) =
+    [OOut match main_err P D sZ with
+          | Some e => OutRaise e
+          | None => OutInterrupted
+          end Paused false true]) /\
+   plans P D (fst (step P presume plan_of D dev sZ (EvMain AResume))) = FList [] :: plans P D sZ /\
+   Forall dq (snd (step P presume plan_of D dev sZ (EvMain AResume)))).
+Proof. exact deferred_pause_end_to_end. Qed.
+Print Assumptions C09_deferred_pause_end_to_end.
+
+(* (2) no checkpoint follows: the call completes, the flag is pending until the next call clears it *)
+Theorem C09_deferred_pause_stays_pending :
+  forall (P : Type) (presume : P -> input -> outcome P) (plan_of : nat -> P) (D : Type)
+    (dev : D -> nat -> devmeth -> D * devres) (d : D) (paus stag : list nat) (rec : bool)
+    (evs0 evsA evsC : list event) (res : tres),
+  let s0 := fst (run P presume plan_of D dev (init P D d paus stag rec) evs0) in
+  let sr := fst (step P presume plan_of D dev s0 (EvReqPause true)) in
+  let sA := fst (run P presume plan_of D dev sr evsA) in
+  let oA := snd (run P presume plan_of D dev sr evsA) in
+  let sC := fst (run P presume plan_of D dev sA evsC) in
+  RE_ExitE2E.nobad P presume plan_of D dev (init P D d paus stag rec) (evs0 ++ EvReqPause true :: evsA) ->
+  allowed (state P D s0) Pausing = true ->
+  pc P D s0 <> PcCmd KCkptSleep ->
+  forallb calm evsA = true ->
+  clean oA = true ->
+  pc P D sA = PcDone res ->
+  forallb calm evsC = true ->
+  onlyidle oA = true /\
+  state P D sA = Idle /\
+  deferred P D sA = true /\
+  interrupted P D sA = interrupted P D s0 /\
+  (forall act : mainact,
+   RE_ExitE2E.is_call act = true ->
+   snd (step P presume plan_of D dev sA (EvMainDone act)) =
+   [OOut
+      match main_err P D sA with
+      | Some e => OutRaise e
+      | None =>
+          match res with
+          | TRaise (EUser1 as e) | TRaise (EUser2 as e) | TRaise (EDev as e) | TRaise (EValueError as e) |
+            TRaise (ERequestAbort as e) | TRaise (ERequestStop as e) | TRaise (EPlanHalt as e) |
+            TRaise (EFailedPause as e) | TRaise (EFailedStatus as e) | TRaise (EIMS as e) |
+            TRaise (EInvalidCommand as e) | TRaise (ERuntimeError as e) | TRaise (EGeneratorExit as e) |
+            TRaise (ETransition as e) | TRaise (EStopIteration as e) | TRaise (ETypeError as e) |
+            TRaise (EAssertion as e) | TRaise (EOther as e) => OutRaise e
+          | _ => if interrupted P D s0 then OutInterrupted else OutReturn (run_uids P D sA)
+          end
+      end Idle true (resumable P D sA)]) /\
+  deferred P D sC = true /\
+  state P D sC = Idle /\
+  forallb still_ob (snd (run P presume plan_of D dev sA evsC)) = true /\
+  (forall pid : nat,
+   deferred P D (fst (step P presume plan_of D dev sC (EvMain (ACall pid)))) = false /\
+   pc P D (fst (step P presume plan_of D dev sC (EvMain (ACall pid)))) = PcNotStarted /\
+   interrupted P D (fst (step P presume plan_of D dev sC (EvMain (ACall pid)))) = false).
+Proof. exact deferred_pause_stays_pending. Qed.
+Print Assumptions C09_deferred_pause_stays_pending.
+
+(* (3) C09-a repaired: the checkpoint may follow clear_checkpoint *)
+Theorem C09_deferred_pause_after_clear_checkpoint :
+  forall (P : Type) (presume : P -> input -> outcome P) (plan_of : nat -> P) (D : Type)
+    (dev : D -> nat -> devmeth -> D * devres) (d : D) (paus stag : list nat) (rec : bool)
+    (evs0 evsA evsG evsH : list event),
+  let s0 := fst (run P presume plan_of D dev (init P D d paus stag rec) evs0) in
+  let sr := fst (step P presume plan_of D dev s0 (EvReqPause true)) in
+  let sA := fst (run P presume plan_of D dev sr evsA) in
+  let oA := snd (run P presume plan_of D dev sr evsA) in
+  let sK := fst (step P presume plan_of D dev sA EvTask) in
+  let oK := snd (step P presume plan_of D dev sA EvTask) in
+  let sG := fst (run P presume plan_of D dev sK evsG) in
+  let sP := fst (step P presume plan_of D dev sG EvTask) in
+  let sH := fst (run P presume plan_of D dev sP evsH) in
+  let sZ := fst (step P presume plan_of D dev sH EvTask) in
+  RE_ExitE2E.nobad P presume plan_of D dev (init P D d paus stag rec)
+    (evs0 ++ EvReqPause true :: evsA ++ EvTask :: evsG ++ EvTask :: evsH ++ [EvTask]) ->
+  allowed (state P D s0) Pausing = true ->
+  pc P D s0 <> PcCmd KCkptSleep ->
+  forallb calm evsA = true ->
+  forallb calm evsG = true ->
+  no_task evsG = true ->
+  forallb calm evsH = true ->
+  no_task evsH = true ->
+  clean oA = true ->
+  cache P D sA = None ->
+  forall (a : list obs) (ck : msg) (b : list obs),
+  oK = a ++ OMsg ck :: b ->
+  clean a = true ->
+  mcmd ck = CCheckpoint ->
+  (forall b' : list obs, b <> OResp (RExn EIMS) :: b') ->
+  cache P D sK = Some [] /\
+  state P D sP = Pausing /\
+  ((exists x : exn, RE_Inv.hook_raises D dev MPause x) \/
+   state P D sZ = Paused /\
+   cache P D sZ = Some [] /\
+   (exists o23 : list obs,
+      snd (step P presume plan_of D dev sH EvTask) = o23 ++ [OState Pausing Paused] ++ [OTask WFuture] /\
+      Forall dq o23)).
+Proof. exact deferred_pause_after_clear_checkpoint. Qed.
+Print Assumptions C09_deferred_pause_after_clear_checkpoint.
+
+(* the replay plan pushed by resume() is the empty list plan: it never yields a message *)
+Theorem C09_empty_replay_is_silent :
+  forall (P : Type) (presume : P -> input -> outcome P) (i : input),
+    exists o, frame_resume P presume (FList []) i = (o, []) /\ forall m f, o <> Yielded m f.
+Proof. exact flist_nil_silent. Qed.
+Print Assumptions C09_empty_replay_is_silent.
+
+(* recorded real runs meet every hypothesis (ex_defer; ex_c09a: checkpoint after clear_checkpoint; ex_defer_late:
+   request after the last checkpoint), and the theorem applied to ex_defer yields what was recorded *)
+Example C09_deferred_pause_end_to_end_nonvacuous :
+  check ex_defer_tapes ex_defer_ledger ex_defer_paus ex_defer_stag ex_defer_rec ex_defer_evs ex_defer_obs = true /\
+  ex_defer_evs = firstn 5 ex_defer_evs ++ EvReqPause true :: [EvTask] ++ EvTask :: [] ++ EvTask :: [] ++ [EvTask] ++ skipn 10 ex_defer_evs /\
+  e2e_hyps ex_defer_tapes ex_defer_ledger ex_defer_paus ex_defer_stag ex_defer_rec (firstn 5 ex_defer_evs) [EvTask] [] [].
+Proof. exact defer_e2e_recorded. Qed.
+Example C09_deferred_pause_after_clear_checkpoint_nonvacuous :
+  check ex_c09a_tapes ex_c09a_ledger ex_c09a_paus ex_c09a_stag ex_c09a_rec ex_c09a_evs ex_c09a_obs = true /\
+  ex_c09a_evs = firstn 6 ex_c09a_evs ++ EvReqPause true :: [EvTask] ++ EvTask :: [] ++ EvTask :: [] ++ [EvTask] ++ skipn 11 ex_c09a_evs /\
+  e2e_hyps ex_c09a_tapes ex_c09a_ledger ex_c09a_paus ex_c09a_stag ex_c09a_rec (firstn 6 ex_c09a_evs) [EvTask] [] [] /\
+  cache TP nat (fst (irun ex_c09a_tapes ex_c09a_ledger ex_c09a_paus ex_c09a_stag ex_c09a_rec (firstn 8 ex_c09a_evs))) = None /\
+  state TP nat (fst (irun ex_c09a_tapes ex_c09a_ledger ex_c09a_paus ex_c09a_stag ex_c09a_rec (firstn 11 ex_c09a_evs))) = Paused.
+Proof. exact defer_c09a_recorded. Qed.
+Example C09_deferred_pause_stays_pending_nonvacuous :
+  let P := TP in let presume := t_resume ex_defer_late_tapes in let D := nat in let dev := t_dev ex_defer_late_ledger in
+  let s_i := init P D 0 ex_defer_late_paus ex_defer_late_stag ex_defer_late_rec in
+  let evs0 := firstn 6 ex_defer_late_evs in
+  let evsA := [EvTask; EvTask; EvTask; EvTask] in
+  let s0 := fst (run P presume t_plan_of D dev s_i evs0) in
+  let sr := fst (step P presume t_plan_of D dev s0 (EvReqPause true)) in
+  let sA := fst (run P presume t_plan_of D dev sr evsA) in
+  check ex_defer_late_tapes ex_defer_late_ledger ex_defer_late_paus ex_defer_late_stag ex_defer_late_rec ex_defer_late_evs ex_defer_late_obs = true /\
+  ex_defer_late_evs = evs0 ++ EvReqPause true :: evsA ++ [EvMainDone (ACall 0)] /\
+  RE_ExitE2E.nobad P presume t_plan_of D dev s_i (evs0 ++ EvReqPause true :: evsA) /\
+  allowed (state P D s0) Pausing = true /\ pc P D s0 <> PcCmd KCkptSleep /\
+  forallb calm evsA = true /\ clean (snd (run P presume t_plan_of D dev sr evsA)) = true /\
+  pc P D sA = PcDone (TReturn (VUid 0)) /\ forallb calm [EvMainDone (ACall 0)] = true /\
+  snd (step P presume t_plan_of D dev sA (EvMainDone (ACall 0))) = [OOut (OutReturn [0]) Idle true true].
+Proof. exact defer_pending_recorded. Qed.
+
+(* the hypotheses are needed (model runs derived from ex_defer; its first 8 events end with the step that processes
+   the second checkpoint, its first 6 with the request): a request landing in the grace sleep prevents the pause, a hard
+   pause before the checkpoint pauses earlier, a request made during an earlier grace sleep pauses at that checkpoint *)
+Example C09_hypotheses_needed :
+  (pc TP nat (fst (irun_d (firstn 8 ex_defer_evs))) = PcCmd KCkptSleep /\
+   has_paused (snd (irun_d (firstn 8 ex_defer_evs ++ [EvReqAbort RsEmpty; EvTask; EvTask; EvTask; EvTask]))) = false /\
+   has_paused (snd (irun_d (firstn 8 ex_defer_evs ++ [EvReqStop; EvTask; EvTask; EvTask; EvTask]))) = false /\
+   has_paused (snd (irun_d (firstn 8 ex_defer_evs ++ [EvReqHalt; EvTask; EvTask; EvTask; EvTask]))) = false /\
+   has_paused (snd (irun_d (firstn 8 ex_defer_evs ++ [EvReqSuspend 0 false false; EvTask; EvTask; EvTask; EvTask]))) = false /\
+   has_paused (snd (irun_d (firstn 8 ex_defer_evs ++ [EvTask; EvTask]))) = true) /\
+  (has_paused (snd (irun_d (firstn 6 ex_defer_evs ++ [EvReqPause false; EvTask; EvTask; EvTask; EvTask]))) = true /\
+   has_msg 3 (snd (irun_d (firstn 6 ex_defer_evs ++ [EvReqPause false; EvTask; EvTask; EvTask; EvTask]))) = false /\
+   has_paused (snd (irun_d (firstn 6 ex_defer_evs ++ [EvReqAbort RsEmpty; EvTask; EvTask; EvTask; EvTask]))) = false).
+Proof. exact (conj defer_needs_calm_grace defer_needs_calm_before). Qed.
